@@ -222,8 +222,12 @@ def run_both(cases, workdir, puf=True, profile="debug", shards=16, timeout=600, 
     return [(c, rust.get(i, []), model.get(i, []), rcrash.get(i)) for i, c in indexed]
 
 
-def compare_case(rust_obs, model_obs, keys):
-    """first disagreement between the crate's and the model's observations on the given keys"""
+def compare_case(rust_obs, model_obs, keys, panics_are_disagreements=True):
+    """first disagreement between the crate's and the model's observations on the given keys.
+    A panic or crash of the crate is C01's subject: the other properties skip such a case."""
+    if not panics_are_disagreements:
+        if any(canon.get(r, "PANIC") is not None or canon.get(r, "CRASH") is not None for r in rust_obs) or len(rust_obs) < len(model_obs):
+            return None
     if len(rust_obs) != len(model_obs):
         return "number of observations: crate %d, model %d" % (len(rust_obs), len(model_obs))
     for k, (r, m) in enumerate(zip(rust_obs, model_obs)):
